@@ -14,7 +14,7 @@ import ast
 from typing import List, Optional, Set
 
 from ..model import Program, AnalysisError, FuncInfo, walk_local, dotted
-from ..report import RuleResult
+from ..report import RuleResult, guard
 from .usertruth import user_truth
 from ..astutil import src, site, calls_in, call_name, is_self_attr, is_super_call, kwarg, names_in, const_value
 from ..callgraph import self_closure, resolve_call, Ctx
@@ -882,4 +882,4 @@ def _pd_field(prog):
 
 def run(prog: Program, tier: str) -> List[RuleResult]:
     alias = pd_alias(prog)
-    return [_pd_field(prog), _sg_purge(prog), pd_element(prog), mc_cover(prog), mc_hook(prog), alias, pd_aug(prog, not alias.failed), pd_seq(prog), pd_single(prog), mc_once(prog), pd_fresh(prog), mc_eq(prog), mc_args(prog), user_truth(prog, ["property_descriptor.property_descriptor", "property_descriptor.monitored_container", "property_descriptor.property_descriptor_relation"], 2)]
+    return [guard(lambda: _pd_field(prog)), guard(lambda: _sg_purge(prog)), guard(lambda: pd_element(prog)), guard(lambda: mc_cover(prog)), guard(lambda: mc_hook(prog)), alias, guard(lambda: pd_aug(prog, not alias.failed)), guard(lambda: pd_seq(prog)), guard(lambda: pd_single(prog)), guard(lambda: mc_once(prog)), guard(lambda: pd_fresh(prog)), guard(lambda: mc_eq(prog)), guard(lambda: mc_args(prog)), guard(lambda: user_truth(prog, ["property_descriptor.property_descriptor", "property_descriptor.monitored_container", "property_descriptor.property_descriptor_relation"], 2))]
